@@ -232,3 +232,16 @@ PROPS["C11"] = {
         "stats emission is fire-and-forget in the stage: the harness re-triggers it until it lands (progress only)",
     ],
 }
+
+PROPS["C12"] = {
+    "pkg": "c12", "level": "exploration",
+    "jobs": {
+        "quick": [{"name": "cache", "run": "^TestInstanceCacheHistories$", "checks": 400, "shards": 16, "steps": 14}],
+        "thorough": [{"name": "cache", "run": "^TestInstanceCacheHistories$", "checks": 24000, "shards": 16, "steps": 25, "timeout": 1700}],
+    },
+    "assumptions": [
+        "the implementation mixes time.Now() (entry expiry, last access) with the refresh ticker's time; tick values are real now + k*10 min while TTL (15 min), negative TTL (5 min) and idle period (25 min) are odd multiples of 5 min, so every comparison is decided with >= 5 min of margin against seconds of real drift; boundaries at equality and per-entry differences in idle age are therefore not explored",
+        "lookup batching waits 10 ms of real time when the batch limit is not reached (bounds the number of histories per second)",
+        "the model folds answers in the order the provider was called (the order in which the cache processes them)",
+    ],
+}
